@@ -609,7 +609,7 @@ func Run(c *vk.Ctx) {
 	c.Note(fmt.Sprintf("(a) byte strings over a %d-byte wire alphabet: bare len<=%d; behind gzip magic / a full gzip header len<=%d; behind %d legacy text contexts over a %d-byte text alphabet len<=%d and over the wire alphabet len<=%d; legacy binary CPU header (4 encodings x C++/Java) + all sequences of <=%d words over 6 values x 3 tails",
 		len(protoAlphabet), pick(4, 5), pick(3, 4), len(legacyPrefixes), len(textAlphabet), pick(3, 4), pick(2, 3), pick(5, 7)))
 	c.Note(fmt.Sprintf("(b) %d seeds (5 wire, %d legacy text, 8 legacy binary, short ones): every byte x ~12 replacements, every truncation, deletion, %d insertions at every offset; pairs of replacements for seeds <= %d bytes (thorough: <= 64)", len(seeds)+len(tinySeeds), len(legacyText), len(inserts), pick(24, 64)))
-	c.Note(fmt.Sprintf("(c) wire-message trees (full: every field of every message; small; sym; types; min): every single deviation (other wire type, value alphabet per field kind, length prefix +-1/0/huge, dup, drop, padded varints, string menu); all pairs for small/sym/types/min (thorough: also full)"))
+	c.Note(fmt.Sprintf("(c) wire-message trees (full: every field of every message; labels: every label shape; small; sym; types; min): every single deviation (other wire type, value alphabet per field kind, length prefix +-1/0/huge, dup, drop, padded varints, string menu); all pairs for small/sym/types/min (thorough: also full)"))
 	c.Note("(d) every ordered pair of seeds concatenated; (e) gzip wrappers of every seed: valid, double, multi-member, trailing bytes, every trailer/header byte changed, truncated at every byte, deflate stream byte changes")
 	c.Note(fmt.Sprintf("reports per distinct accepted profile shape: %d driver invocations %v", len(reportCmds), reportCmds))
 
@@ -628,6 +628,7 @@ func Run(c *vk.Ctx) {
 	k.grammar("grammar", "types", baseTypes(), 3, 2)
 	k.grammar("grammar", "small", baseSmall(), 3, 2)
 	k.grammar("grammar", "sym", baseSym(), 3, 2)
+	k.grammar("grammar", "labels", baseLabels(), 7, pick(1, 2))
 	k.grammar("grammar", "full", baseFull(), len(baseStrings), pick(1, 2))
 	k.end()
 
